@@ -13,6 +13,7 @@ CONSTANTS GDirs,     \* gravity directions (integer vectors with integer norm)
           Beams,     \* incident beam vectors
           Dets,      \* scattered beam vectors
           Qs,        \* drop parameters <<qn, qd>>
+          Rots,      \* rotations used by Reorient (generators of, or all of, Rot24)
           Bug        \* "none" | "plus_g" | "opt_no_x" | "refl_accepts"
 
 VARIABLES setup, out
@@ -39,13 +40,20 @@ Init == setup \in Setups /\ out = Dispatch(setup)
 
 Call(s) == s \in Setups /\ setup' = s /\ out' = Dispatch(s)
 
-Tilt         == \E b \in Beams : b # setup.b1 /\ Call([setup EXCEPT !.b1 = b])
-MoveDetector == \E d \in Dets : d # setup.b2 /\ Call([setup EXCEPT !.b2 = d])
+(* Tilt / MoveDetector go to a neighbouring lattice vector (every setup is also an initial  *)
+(* state, so nothing is lost by taking small steps)                                        *)
+Adjacent(u, v) == Norm2(VSub(u, v)) = 1
+Tilt         == \E b \in Beams : Adjacent(b, setup.b1) /\ Call([setup EXCEPT !.b1 = b])
+MoveDetector == \E d \in Dets : Adjacent(d, setup.b2) /\ Call([setup EXCEPT !.b2 = d])
 Lift         == \E q \in Qs : RatLt(setup.q, q) /\ Call([setup EXCEPT !.q = q])
 Lower        == \E q \in Qs : RatLt(q, setup.q) /\ Call([setup EXCEPT !.q = q])
-Reorient     == \E R \in Rot24 :
-                   Call([g |-> MatVec(R, setup.g), b1 |-> MatVec(R, setup.b1),
-                         b2 |-> MatVec(R, setup.b2), q |-> setup.q])
+RotSetup(R, s) == [g |-> MatVec(R, s.g), b1 |-> MatVec(R, s.b1), b2 |-> MatVec(R, s.b2), q |-> s.q]
+Reorient     == \E R \in Rots : Call(RotSetup(R, setup))
+
+(* cheap recognisers of a step's kind for the action properties (same relation as the     *)
+(* actions above, without re-evaluating Dispatch)                                        *)
+IsLift     == setup' = [setup EXCEPT !.q = setup'.q] /\ RatLt(setup.q, setup'.q)
+IsReorient == \E R \in Rots : setup' = RotSetup(R, setup)
 
 Next == Tilt \/ MoveDetector \/ Lift \/ Lower \/ Reorient
 Spec == Init /\ [][Next]_vars
@@ -101,11 +109,11 @@ ReflTable ==
 -----------------------------------------------------------------------------
 (* raising q for a detector above a horizontal beam moves 2theta monotonically *)
 Monotone ==
-    [][(Lift /\ Perpendicular(setup) /\ YNum(setup, setup.b2) >= 0) =>
+    [][(IsLift /\ Perpendicular(setup) /\ YNum(setup, setup.b2) >= 0) =>
           /\ (ZNum(setup, setup.b2) > 0 => AngleLt(out.tt, out'.tt))
           /\ (ZNum(setup, setup.b2) < 0 => AngleLt(out'.tt, out.tt))
           /\ (ZNum(setup, setup.b2) = 0 => out'.tt = out.tt)]_vars
 
 (* a common rotation of gravity and both beams changes neither angle *)
-RotationInvariant == [][Reorient => (out'.tt = out.tt /\ out'.phi = out.phi /\ out'.refl = out.refl)]_vars
+RotationInvariant == [][IsReorient => (out'.tt = out.tt /\ out'.phi = out.phi /\ out'.refl = out.refl)]_vars
 =============================================================================
